@@ -592,6 +592,7 @@ func vspecPublishOK(src []byte) bool {
 //@   ensures v > 2 ==> err != nil && m.mtypeflags[0] == old(m.mtypeflags[0]) && m.dirty == old(m.dirty)
 //@   ensures v <= 2 ==> err == nil && m.mtypeflags[0] == old(m.mtypeflags[0]) - old(vspecQoSOf(m.mtypeflags[0]))*2 + v*2
 //@   ensures v <= 2 ==> m.dirty == (old(m.dirty) || ((old(vspecQoSOf(m.mtypeflags[0])) > 0) != (v > 0)))
+//@   ensures[C01:qos] v <= 2 ==> vspecQoSOf(m.mtypeflags[0]) == v
 //@   modifies elems(m.mtypeflags, 0, 1), m.dirty
 
 //@ func (*PublishMessage).Topic
@@ -970,6 +971,27 @@ func vspecCWM(src []byte) int { return vspecCW(src) + 2 + vspecBE16(src, vspecCW
 //@   ensures[C03:accept] old(m.dirty) && Type(m.mtypeflags[0]>>4) == CONNECT && haskey(SupportedVersions, m.version) && len(dst) >= 5+vdefConnBody(m) ==> err == nil
 //@   modifies elems(dst, 0, n), m.remlen, m.dirty
 
+// ---------------------------------------------------------------- constructors and accessors used by the protocol handlers
+
+// A freshly constructed message: new object, new one-byte type/flags buffer with the type's default flags, no packet id yet.
+//@ define vdefFreshMsg(r, t)
+//@   is r != nil && fresh(r) && len(r.mtypeflags) == 1 && fresh(arr(r.mtypeflags)) && r.mtypeflags[0] == byte(t)*16+vspecDefaultFlags(t) && len(r.packetID) == 0
+
+//@ func NewPubackMessage
+//@   ensures vdefFreshMsg(result, PUBACK)
+//@ func NewPubrecMessage
+//@   ensures vdefFreshMsg(result, PUBREC)
+//@ func NewPubrelMessage
+//@   ensures vdefFreshMsg(result, PUBREL)
+//@ func NewPubcompMessage
+//@   ensures vdefFreshMsg(result, PUBCOMP)
+//@ func NewSubackMessage
+//@   ensures vdefFreshMsg(result, SUBACK) && len(result.returnCodes) == 0
+//@ func NewUnsubackMessage
+//@   ensures vdefFreshMsg(result, UNSUBACK)
+//@ func NewPingrespMessage
+//@   ensures vdefFreshMsg(result, PINGRESP)
+
 // ---------------------------------------------------------------- interface-level contracts of message.Message
 //
 // Assumed at call sites in other packages (trusted). Every implementation of Message in this code base is a pointer
@@ -995,7 +1017,8 @@ func vspecCWM(src []byte) int { return vspecCW(src) + 2 + vspecBE16(src, vspecCW
 //@ iface Message.Len
 //@   trusted
 //@   ensures 0 <= result && result <= 268435460
-//@   modifies heap("F.message.header.remlen"), heap("F.message.header.dirty")
+//@   ensures[keepdirty] ifaceval(self, *header).dirty == old(ifaceval(self, *header).dirty)
+//@   modifies ifaceval(self, *header).remlen, ifaceval(self, *header).dirty
 
 //@ iface Message.Encode
 //@   trusted
@@ -1003,4 +1026,5 @@ func vspecCWM(src []byte) int { return vspecCW(src) + 2 + vspecBE16(src, vspecCW
 //@   flag args self, dst
 //@   ensures err == nil ==> 0 <= n && n <= len(dst) && n <= 268435460
 //@   ensures[ghostdef-lastenc] gfield(0, "encn") == n && gfield(0, "encarr") == arr(dst) && gfield(0, "encoff") == off(dst) && gfield(0, "encAt") == gfield(0, "clock")
-//@   modifies elems(dst), heap("F.message.header.remlen"), heap("F.message.header.dirty"), heap("F.message.header.packetID"), gPacketID, gfield(0, "encn"), gfield(0, "encarr"), gfield(0, "encoff"), gfield(0, "encAt")
+//@   ensures[keepid] old(vspecPacketID(ifaceval(self, *header).packetID)) != 0 || !old(ifaceval(self, *header).dirty) ==> vspecPacketID(ifaceval(self, *header).packetID) == old(vspecPacketID(ifaceval(self, *header).packetID))
+//@   modifies elems(dst), ifaceval(self, *header).remlen, ifaceval(self, *header).dirty, ifaceval(self, *header).packetID, gPacketID, gfield(0, "encn"), gfield(0, "encarr"), gfield(0, "encoff"), gfield(0, "encAt")
